@@ -543,6 +543,73 @@ theorem crop1d_centred (x y : List Int) (n2 i : Nat) (h2 : 1 ≤ n2) (h : n2 ≤
     unfold fftshiftSrc; exact Nat.mod_lt _ (by omega)
   rw [List.getD_eq_getElem?_getD, List.getElem?_eq_getElem hlt, Option.getD_some]
 
+lemma bigPos_inj (N n p q : Nat) (h : n ≤ N) (hp : p < n) (hq : q < n) (he : bigPos N n p = bigPos N n q) : p = q := by
+  unfold bigPos at he
+  split_ifs at he <;> omega
+
+lemma lookup_map_key (f : Nat → Nat) (l : List Nat) (q0 : Nat) (hq : q0 ∈ l)
+    (hinj : ∀ a ∈ l, ∀ b ∈ l, f a = f b → a = b) :
+    (l.map fun q => (f q, q)).lookup (f q0) = some q0 := by
+  induction l with
+  | nil => simp at hq
+  | cons a as ih =>
+    rw [List.map_cons, List.lookup_cons]
+    by_cases ha : q0 = a
+    · subst ha; simp
+    · have hne : f q0 ≠ f a := fun h => ha (hinj q0 hq a (List.mem_cons_self) h)
+      have : (f q0 == f a) = false := by simpa using hne
+      rw [this]
+      have hq' : q0 ∈ as := by
+        rcases List.mem_cons.1 hq with h | h
+        · exact absurd h ha
+        · exact h
+      exact ih hq' (fun x hx y hy => hinj x (List.mem_cons_of_mem _ hx) y (List.mem_cons_of_mem _ hy))
+
+lemma lookup_map_none (f : Nat → Nat) (l : List Nat) (p : Nat) (hp : ∀ a ∈ l, f a ≠ p) :
+    (l.map fun q => (f q, q)).lookup p = none := by
+  induction l with
+  | nil => simp
+  | cons a as ih =>
+    rw [List.map_cons, List.lookup_cons]
+    have : (p == f a) = false := by
+      have := hp a List.mem_cons_self
+      simpa using fun h => this h.symm
+    rw [this]
+    exact ih (fun x hx => hp x (List.mem_cons_of_mem _ hx))
+
+/-- **`fft_crop` of a 1-D array to a larger size** (zero padding): input coefficient `q` lands at the output position
+of the same signed frequency, `bigPos n₂ n₁ q`, and every other output position is `0`. -/
+theorem crop1d_pad_value (x y : List Int) (n2 : Nat) (h1 : 1 ≤ x.length) (h : x.length < n2) (hy : crop1d x n2 = .ok y) :
+    y.length = n2 ∧ (∀ q, q < x.length → y.getD (bigPos n2 x.length q) 0 = x.getD q 0) ∧
+    (∀ p, p < n2 → headTail n2 x.length p = false → y.getD p 0 = 0) := by
+  have hc := mask_counts x.length n2 h1 (by omega)
+  unfold crop1d at hy
+  simp only [hc.1, hc.2, if_true] at hy
+  cases hy
+  have hpairs := pairs1d_pad x.length n2 h1 h
+  refine ⟨by simp [assignPairs], ?_, ?_⟩
+  · intro q hq
+    have hb := (bigPos_same_frequency n2 x.length q h1 (by omega) hq).2
+    unfold assignPairs
+    rw [List.getD_eq_getElem?_getD, List.getElem?_map, List.getElem?_range hb]
+    simp only [Option.map_some, Option.getD_some]
+    rw [hpairs, lookup_map_key (bigPos n2 x.length) (List.range x.length) q (List.mem_range.2 hq)
+      (fun a ha b hb' he => bigPos_inj n2 x.length a b (by omega) (List.mem_range.1 ha) (List.mem_range.1 hb') he)]
+  · intro p hp hm
+    unfold assignPairs
+    rw [List.getD_eq_getElem?_getD, List.getElem?_map, List.getElem?_range hp]
+    simp only [Option.map_some, Option.getD_some]
+    rw [hpairs, lookup_map_none]
+    intro a ha hEq
+    have ha' := List.mem_range.1 ha
+    have : headTail n2 x.length p = true := by
+      rw [← hEq]
+      unfold headTail bigPos
+      simp only [Bool.or_eq_true, Bool.and_eq_true, decide_eq_true_eq]
+      split_ifs <;> omega
+    rw [this] at hm
+    exact absurd hm (by simp)
+
 /-! ### two dimensions: the outer-product masks pair positions axis by axis -/
 
 lemma flatTrue_product (nx ny : Nat) (mx my : Nat → Bool) :
